@@ -49,10 +49,14 @@ def script(rng, case):
 
 
 def run_case(ctx, i, rng):
+    retries = rng.random() < 0.35
     feat = wfgen.Features(hold_after=rng.random() < 0.4, max_tasks=5,
+                          retries=retries,
                           runahead=['P1', 'P2', 'P4', None])
     gt = wfgen.gen_workflow(rng, feat)
-    case = runner.build_case(rng, gt, 'all-complete', hostile=0.2)
+    # (with retries: a held active task that fails must not be re-submitted)
+    case = runner.build_case(rng, gt, 'retrying' if retries else
+                             'all-complete', hostile=0.2)
     sc = script(rng, case)
     restart = rng.random() < 0.5
     plist = [{'name': 'p0', 'script': list(sc)}]
